@@ -19,6 +19,16 @@ def all_contracts():
         C.update(K.C)
     except ImportError:
         pass
+    from . import stab_tableau as ST, stab_circuit as SC, stab_inverse as SI, stab_height as SH, stab_metric as SM
+
+    C.update(ST.C)  # stabilizer.py helpers (tab_row_swap/sum, finders, insert_qubit)
+    C.update(SC.C)  # transformation.run_circuit (concrete lists)
+    C.update(SI.C)  # stabilizer.canonical_form (frame contract)
+    C.update(SH.C)  # height.py, TimeReversedSolver.determine_n_emitters
+    C.update(SM.C)  # StabilizerTableau.__eq__, CliffordTableau.to_stabilizer
+    from . import stab_rref as SR
+
+    C.update(SR.C)  # rref, one_step_rref, _process_one_pauli, _process_two_pauli (frame contracts)
     return C
 
 
